@@ -29,7 +29,7 @@ func c07World(tp *Tape, env *Env) (*Plan, *Violation) {
 		MaxNodes: 4, MaxStmts: 4, MaxDepth: 2, MaxTotal: 22,
 		WLine: 8, WOptions: 4, WIf: 3, WSet: 5, WDeclare: 1, WJump: 5, WJumpE: 2, WStop: 0, WCall: 1, WCommand: 3,
 		NVars: [3]int{2, 1, 1}, NJVars: 1, Probes: true, Visited: true, ExprDepth: 1,
-		InlinePct: 25, CondPct: 25, TrackingPct: 15, VarLines: true, CountLines: tp.Bool("countlines"),
+		InlinePct: 25, CondPct: 25, TrackingPct: 15, VarLines: true, Builtins: true, CountLines: tp.Bool("countlines"),
 	}
 	if tp.Chance(50, "nocmd") {
 		cfg.WCommand = 0
@@ -40,7 +40,13 @@ func c07World(tp *Tape, env *Env) (*Plan, *Violation) {
 		cfg.NoDeclarePrelude = true // variables then come from the host's prefill
 	}
 	g := &gen{tp: tp, cfg: cfg}
-	prog := g.program()
+	var prog *Program
+	if !cfg.NoDeclarePrelude && tp.Chance(20, "hubworld") {
+		cfg.WJump, cfg.WJumpE, cfg.WStop = 1, 0, 0
+		prog = g.hubProgram()
+	} else {
+		prog = g.program()
+	}
 	g.ensureYieldingCycles(prog)
 	layout := Layout{Indent: "    ", FinalNL: true}
 	w := World{Readers: []ReaderSpec{{Text: renderNodes(prog.Nodes, layout, 0)}}}
@@ -108,6 +114,7 @@ func c07World(tp *Tape, env *Env) (*Plan, *Violation) {
 	plan := &Plan{Harness: 1, Property: "C07", Program: prog, Layout: &layout, World: w, Ops: ops, Extra: map[string]any{"experiments": exps}}
 	env.St.inc("worlds_run", 1)
 	env.St.sample(map[string]any{"script": readerTexts(&w), "original": describeDynOps(ops), "experiments": len(exps), "first_experiment": exps[0]})
+	journal(plan)
 	return plan, c07Exec(plan, env.St)
 }
 
